@@ -34,7 +34,8 @@ REACH = [("yamlpath/common/searches.py", "search_matches", "Searches.search_matc
          ("yamlpath/processor.py", "_get_nodes_by_search", "Processor._get_nodes_by_search")]
 EXHAUSTIVE_NOTE = "the operator x value-pool x term-pool grid (sizes in counters grid_cells)"
 SIZES = {"quick": dict(rnd=400000, part=60000), "thorough": dict(rnd=2500000, part=250000)}
-REQUIRED_COUNTERS = ["grid_cells", "grid_decided", "partition_checked", "anchor_twin_checked", "membership_checked"]
+REQUIRED_COUNTERS = ["grid_cells", "grid_decided", "partition_checked", "anchor_twin_checked", "membership_checked", "typed_set_partitions", "set_membership_checked",
+                     "descendant_attr_partitions"]
 
 OPS = {"=": PathSearchMethods.EQUALS, "^": PathSearchMethods.STARTS_WITH, "$": PathSearchMethods.ENDS_WITH,
        "%": PathSearchMethods.CONTAINS, ">": PathSearchMethods.GREATER_THAN, "<": PathSearchMethods.LESS_THAN,
@@ -189,6 +190,75 @@ def partition(ctx, doc_text, data, coll_path, coll, op, term):
             "summary": "children=%r plain=%r inverted=%r" % (children, locp, loci)})
 
 
+def typed_set_case(ctx, rng):
+    """`!!set` nodes whose members are not all Strings (ints, floats, Booleans): partition + documented membership."""
+    pool = ["5", "10", "2.5", "2.50", "true", "false", "a", "ab", "0", "-1", "1e3", "'5'", "0x10", "null"]
+    members = rng.sample(pool, rng.randrange(2, 6))
+    text = "s: !!set\n" + "".join("  ? %s\n" % m for m in members)
+    try:
+        data = yp.load(text)
+    except yp.LoadError:
+        return
+    op = rng.choice(list(OPS))
+    term = rng.choice(REGEX_TERMS) if op == "=~" else rng.choice([m.strip("'") for m in members] + ["5", "5.0", "2.5", "TRUE", "1000", "16", "a"])
+    ctx.count("typed_set_partitions")
+    partition(ctx, text, data, "/s", data["s"], op, term)
+    # membership: the documented rules decide most cells
+    t = gp.render_term(op, term)
+    try:
+        got = [n.node for n in Processor(LOG, data).get_nodes("/s/[.%s%s]" % (op, t), mustexist=False)]
+    except YAMLPathException:
+        return
+    for m in list(data["s"]):
+        try:
+            want = M.decide(op, m, term)
+        except re.error:
+            want = None
+        if want is None:
+            continue
+        ctx.counters["membership_checked"] = ctx.counters.get("membership_checked", 0) + 1
+        ctx.count("set_membership_checked")
+        if any(g is m for g in got) != want:
+            ctx.violation("processor-search-membership/set/%s" % op, {
+                "case": {"doc": text, "path": "/s", "op": op, "term": term},
+                "summary": "member %r %s the result of [.%s%s]; documented rules say it %s" % (
+                    m, "is in" if not want else "is not in", op, t, "must be" if want else "must not be")})
+            return
+
+
+def descendant_attr_case(ctx, rng):
+    """Hashes searched one by one for a DESCENDANT attribute (`/things/*[spec.size OP t]`), some of them lacking it: the
+    plain and the inverted search still partition the candidates."""
+    kids = []
+    for k in rng.sample(["t1", "t2", "t3", "t4", "t5"], rng.randrange(2, 6)):
+        kids.append("%s: %s" % (k, rng.choice(["{spec: {size: %s}}" % rng.choice(["5", "10", "big", "2.5", "true"]), "{spec: {}}",
+                                                "{other: 1}", "{spec: {size: 5, w: 1}, other: 2}", "{}"])))
+    text = "{things: {%s}}" % ", ".join(kids)
+    data = yp.load(text)
+    op = rng.choice(list(OPS))
+    term = rng.choice(REGEX_TERMS) if op == "=~" else rng.choice(["5", "10", "big", "b", "2.5", "true", "7"])
+    t = gp.render_term(op, term)
+    attr = rng.choice(["spec.size", "spec.size", "spec.w"])
+    ctx.evaluations += 1
+    ctx.count("descendant_attr_partitions")
+    res = []
+    for inv in ("", "!"):
+        try:
+            res.append([n.parentref for n in Processor(LOG, data).get_nodes("/things/*[%s%s%s%s]" % (attr, inv, op, t), mustexist=False)])
+        except YAMLPathException:
+            return
+        except Exception as e:
+            ctx.violation("partition-raises/%s" % type(e).__name__, {"case": {"doc": text, "attr": attr, "op": op, "term": term}, "summary": repr(e)[:150]})
+            return
+    ctx.counters["partition_checked"] = ctx.counters.get("partition_checked", 0) + 1
+    if res[0] and res[1]:
+        ctx.mark_nontrivial([text, attr, op, term])
+    if sorted(res[0] + res[1]) != sorted(data["things"].keys()):
+        ctx.violation("inversion-not-complement/descendant-attribute", {
+            "case": {"doc": text, "path": "/things/*", "attr": attr, "op": op, "term": term},
+            "summary": "children=%r plain=%r inverted=%r" % (list(data["things"].keys()), res[0], res[1])})
+
+
 def collections(data):
     """(slash path text, container) for every list/hash/set reachable by plain keys/indexes."""
     out = []
@@ -260,6 +330,10 @@ def run_shard(ctx):
     done = 0
     want = sz["part"] // ctx.nshards
     while done < want:
+        if rng.random() < 0.1:
+            typed_set_case(ctx, rng)
+            descendant_attr_case(ctx, rng)
+            done += 2
         text = rng.choice(gd.HOSTILE) if rng.random() < 0.1 else gd.gen_doc(rng, rng.choice(["N", "U"]))[0]
         try:
             data = yp.load(text)
